@@ -1,4 +1,230 @@
-import PybtexModel.Spec.OrderedMap
-import PybtexModel.Lemmas.Basic
+/-
+C13 — case-insensitive ordered containers behave like their reference model.
+
+Property theorems only; helper lemmas are in `Lemmas/CIMap.lean`, the model of the code in
+`Model/CIMap.lean`, the reference model (what the reader has to agree with) in
+`Spec/OrderedMap.lean`.
+-/
+import PybtexModel.Lemmas.CIMap
+
 namespace Pybtex.Props
+open Pybtex CIDict
+variable {V : Type}
+
+/-- The code's two tables stay in lock step — same lower-cased keys in the same order, no
+duplicate, every stored spelling lower-cases to its key — from construction (with *any* list of
+pairs) through *every* history of operations.  In particular the half-updated state that
+`__delitem__` could leave behind (first table changed, `KeyError` from the second) is
+unreachable. -/
+theorem C13_lockstep (ps : List (Str × V)) (ops : List (Op V)) :
+    CIDict.Inv (CIDict.run (CIDict.ofPairs ps) ops).1 :=
+  (run_refines (ofPairs_spec ps).1 ops).1
+
+/-- Refinement: every history of operations on the implementation model, started from a
+constructor call whose pairs have pairwise distinct (exact) keys, produces exactly the results
+of the reference ordered map, and ends in a state whose abstraction is the reference state. -/
+theorem C13_refines (ps : List (Str × V)) (hps : (ps.map Prod.fst).Nodup) (ops : List (Op V)) :
+    CIDict.abs (CIDict.run (CIDict.ofPairs ps) ops).1 = (OMap.run (OMap.ofPairs ps) ops).1 ∧
+    (CIDict.run (CIDict.ofPairs ps) ops).2 = (OMap.run (OMap.ofPairs ps) ops).2 := by
+  have h := ofPairs_spec ps
+  rw [dofPairs_nodup ps hps] at h
+  have := run_refines h.1 ops
+  rw [h.2] at this
+  exact this.2
+
+/-- the hypotheses of `C13_refines` are satisfiable by a non-trivial history -/
+theorem C13_refines_nonvacuous :
+    (CIDict.run (CIDict.ofPairs [("Uno".toList, (1 : Int)), ("dos".toList, 2)])
+      [.set "UNO".toList 7, .del "Dos".toList, .get "uno".toList, .iter]).2
+      = [.unit, .unit, .val 7, .keys ["UNO".toList]] := by decide
+
+theorem C13_lookup_ignores_case (d : CIDict V) (k k' : Str) (h : lower k = lower k') :
+    getItem d k = getItem d k' ∧ contains d k = contains d k' := by
+  simp [getItem, contains, h]
+
+/-- Overwriting an existing key keeps its position in the iteration order, replaces the
+remembered spelling by the new one, and stores the value. -/
+theorem C13_overwrite_keeps_position (d : CIDict V) (hd : CIDict.Inv d) (k : Str) (v : V)
+    (hk : contains d k = true) :
+    (∃ pre sp post, iter d = pre ++ sp :: post ∧ lower sp = lower k ∧
+        iter (setItem d k v) = pre ++ k :: post) ∧
+    getItem (setItem d k v) k = some v ∧ len (setItem d k v) = len d := by
+  have hs := abs_setItem hd k v
+  have hi := inv_setItem hd k v
+  refine ⟨?_, ?_, ?_⟩
+  · rw [iter_abs hd, iter_abs hi, hs]
+    have hwf := (abs_wf hd).1
+    have hh : OMap.has (CIDict.abs d) k = true := by rw [← contains_abs hd]; exact hk
+    generalize CIDict.abs d = m at hh hwf
+    induction m with
+    | nil => simp [OMap.has, OMap.get] at hh
+    | cons e m ih =>
+      obtain ⟨l, sp, w⟩ := e
+      simp only [OMap.has, OMap.get] at hh
+      by_cases hl : l = lower k
+      · refine ⟨[], sp, OMap.keys m, by simp [OMap.keys], ?_, by simp [OMap.set, hl, OMap.keys]⟩
+        rw [← hl]; exact (hwf (l, sp, w) (by simp)).symm
+      · rw [if_neg hl] at hh
+        obtain ⟨pre, sp', post, h1, h2, h3⟩ := ih hh (fun e he => hwf e (List.mem_cons_of_mem _ he))
+        refine ⟨sp :: pre, sp', post, ?_, h2, ?_⟩
+        · simp only [OMap.keys, List.map_cons] at h1 ⊢; simp [h1]
+        · simp only [OMap.set, if_neg hl, OMap.keys, List.map_cons] at h3 ⊢; simp [h3]
+  · rw [getItem_abs hi, hs]
+    generalize CIDict.abs d = m
+    induction m with
+    | nil => simp [OMap.set, OMap.get]
+    | cons e m ih =>
+      obtain ⟨l, sp, w⟩ := e
+      simp only [OMap.set]
+      split
+      · rename_i hl; simp [OMap.get, hl]
+      · rename_i hl; simp [OMap.get, hl, ih]
+  · have h1 : lower k ∈ d.dict.map Prod.fst := (dhas_iff_mem _ _).1 hk
+    have : (dset d.dict (lower k) v).length = d.dict.length := by
+      have := congrArg List.length (dset_keys_of_mem d.dict (lower k) v h1)
+      simpa using this
+    simpa [len, setItem] using this
+
+/-- A key that is not present is appended: iteration follows first insertion. -/
+theorem C13_first_insertion_order (d : CIDict V) (k : Str) (v : V)
+    (hk : contains d k = false) (hd : CIDict.Inv d) :
+    iter (setItem d k v) = iter d ++ [k] ∧ getItem (setItem d k v) k = some v := by
+  have hnot : lower k ∉ d.keys.map Prod.fst := by
+    rw [← hd.1]
+    apply (dget_none_iff d.dict (lower k)).1
+    simp only [contains, dhas] at hk
+    cases h : dget d.dict (lower k) with
+    | none => rfl
+    | some x => rw [h] at hk; simp at hk
+  constructor
+  · simp [iter, setItem, dset_of_not_mem _ _ _ hnot]
+  · simp [getItem, setItem, dget_dset_same]
+
+/-- Deleting a present key removes exactly that key: it is gone, every other key keeps its
+value, the remaining keys keep their order, and the length drops by one. -/
+theorem C13_delete_exact (d : CIDict V) (hd : CIDict.Inv d) (k : Str) (hk : contains d k = true) :
+    (delItem d k).2 = true ∧
+    contains (delItem d k).1 k = false ∧
+    (∀ k', lower k' ≠ lower k → getItem (delItem d k).1 k' = getItem d k') ∧
+    (iter (delItem d k).1).Sublist (iter d) ∧
+    len (delItem d k).1 + 1 = len d := by
+  have hkeys : dhas d.keys (lower k) = true := by rw [zipT_has_keys hd.1]; exact hk
+  have hk' : dhas d.dict (lower k) = true := hk
+  have heq : delItem d k = (⟨ddel d.dict (lower k), ddel d.keys (lower k)⟩, true) := by
+    simp [delItem, hk', hkeys]
+  rw [heq]
+  have hmem : lower k ∈ d.dict.map Prod.fst := by
+    apply Classical.byContradiction
+    intro hn
+    have := (dget_none_iff d.dict (lower k)).2 hn
+    simp [dhas, this] at hk'
+  refine ⟨rfl, ?_, ?_, ?_, ?_⟩
+  · simp only [contains, dhas]
+    have hn : (d.dict.map Prod.fst).Nodup := by rw [hd.1]; exact hd.2.1
+    have := (dget_none_iff _ _).2 (ddel_not_mem d.dict (lower k) hn)
+    simp [this]
+  · intro k' hne
+    simp [getItem, dget_ddel_ne _ _ _ hne]
+  · exact (ddel_sublist d.keys (lower k)).map Prod.snd
+  · simp only [len]
+    have := congrArg List.length (ddel_keys d.dict (lower k))
+    simp only [List.length_map] at this
+    rw [this, List.length_erase_of_mem hmem]
+    have : 0 < (d.dict.map Prod.fst).length := List.length_pos_of_mem hmem
+    simp only [List.length_map] at this ⊢
+    omega
+
+/-- Length, containment, iteration and `items()` always agree with each other. -/
+theorem C13_len_contains_iter_agree (d : CIDict V) (hd : CIDict.Inv d) :
+    len d = (iter d).length ∧
+    (∀ k, contains d k = true ↔ lower k ∈ (iter d).map lower) ∧
+    (∃ its, items d = some its ∧ its.map Prod.fst = iter d ∧
+       ∀ p ∈ its, getItem d p.1 = some p.2) := by
+  refine ⟨?_, ?_, ?_⟩
+  · simp [len, iter, lock_length hd.1]
+  · intro k
+    have hl : (iter d).map lower = d.keys.map Prod.fst := by
+      simp only [iter, List.map_map]
+      apply List.map_congr_left
+      intro e he
+      simp [hd.2.2 e he]
+    rw [hl, ← hd.1]
+    simp only [contains, dhas]
+    have := dget_none_iff d.dict (lower k)
+    cases h : dget d.dict (lower k) with
+    | none => simp [this.1 h]
+    | some x =>
+      simp only [Option.isSome_some, true_iff]
+      apply Classical.byContradiction
+      intro hn; rw [this.2 hn] at h; cases h
+  · refine ⟨_, items_abs hd, ?_, ?_⟩
+    · rw [iter_abs hd]; simp [OMap.items, OMap.keys]
+    · intro p hp
+      rw [getItem_abs hd]
+      have hwf := abs_wf hd
+      generalize CIDict.abs d = m at hp hwf
+      induction m with
+      | nil => simp [OMap.items] at hp
+      | cons e m ih =>
+        obtain ⟨l, sp, w⟩ := e
+        simp only [OMap.items, List.map_cons, List.mem_cons] at hp
+        have hl : l = lower sp := hwf.1 (l, sp, w) (by simp)
+        rcases hp with hp | hp
+        · subst hp; simp [OMap.get, hl]
+        · have hnd := hwf.2
+          simp only [List.map_cons, List.nodup_cons] at hnd
+          have hne : l ≠ lower p.1 := by
+            intro he
+            apply hnd.1
+            obtain ⟨e', he', hpe⟩ := List.mem_map.1 hp
+            have : e'.1 = lower e'.2.1 := hwf.1 e' (List.mem_cons_of_mem _ he')
+            rw [he, ← hpe]
+            exact List.mem_map.2 ⟨e', he', this⟩
+          simp only [OMap.get, if_neg hne]
+          exact ih hp ⟨fun e he => hwf.1 e (List.mem_cons_of_mem _ he), hnd.2⟩
+
+/-- Case-lowering: the keys are lower-cased, order and values are kept. -/
+theorem C13_lower (d : CIDict V) (hd : CIDict.Inv d) :
+    ∃ d', lowered d = some d' ∧ CIDict.Inv d' ∧ iter d' = (iter d).map lower ∧
+      items d' = (items d).map (fun its => its.map fun p => (lower p.1, p.2)) := by
+  obtain ⟨d', h1, h2, h3⟩ := lowered_spec hd
+  have hwf := (abs_wf hd).1
+  refine ⟨d', h1, h2, ?_, ?_⟩
+  · rw [iter_abs h2, h3, iter_abs hd]
+    simp only [OMap.keys, OMap.lowered, List.map_map]
+    apply List.map_congr_left
+    intro e he; simp [hwf e he]
+  · rw [items_abs h2, h3, items_abs hd]
+    simp only [OMap.items, OMap.lowered, List.map_map, Option.map_some]
+    congr 1
+    apply List.map_congr_left
+    intro e he; simp [hwf e he]
+
+/-- The defaulting variant yields its default for an absent key and stores nothing. -/
+theorem C13_default_no_insert (d : CIDict V) (k : Str) (dflt : V) (hk : getItem d k = none) :
+    CIDict.step d (.getDefault k dflt) = (d, .val dflt) := by
+  simp [CIDict.step, getItemDefault, hk]
+
+/-- Frame: writing or deleting one key leaves the lookup of every other key unchanged. -/
+theorem C13_frame (d : CIDict V) (k k' : Str) (v : V) (hne : lower k' ≠ lower k) :
+    getItem (setItem d k v) k' = getItem d k' ∧ getItem (delItem d k).1 k' = getItem d k' := by
+  constructor
+  · simp [getItem, setItem, dget_dset_ne _ _ _ _ hne]
+  · unfold delItem
+    split
+    · split <;> simp [getItem, dget_ddel_ne _ _ _ hne]
+    · rfl
+
+/-- The case-insensitive set: every history of add / discard / remove / lookups / lower from
+any initial list behaves like the reference set, and the set of lower-cased keys stays equal to
+the key table's domain. -/
+theorem C13_set_refines (init : List Str) (ops : List SOp) :
+    CISet.Inv (CISet.run (CISet.ofList init) ops).1 ∧
+    CISet.abs (CISet.run (CISet.ofList init) ops).1 = (OSet.run (init.foldl OSet.add []) ops).1 ∧
+    (CISet.run (CISet.ofList init) ops).2 = (OSet.run (init.foldl OSet.add []) ops).2 := by
+  have h := CISet.ofList_spec init
+  have := CISet.run_refines h.1 ops
+  rw [h.2] at this
+  exact this
+
 end Pybtex.Props
